@@ -41,6 +41,7 @@ class T:
         self.phase = "idle"
         self.round = 0
         self.ident = None
+        self.skip = 0               # number of switch points to pass without handing the baton back
 
 
 class Sched:
@@ -52,6 +53,7 @@ class Sched:
         self.abort = False
         self.current = None
         self.trace = []             # (thread idx, n_runnable) per step
+        self.quiet = False          # when True switch points are ignored (run-to-completion segments)
         self.pos_fn = None          # optional: () -> position signature, called in the yielding thread
         self.on_step = None         # optional: callback(sched, thread) after every step (invariants)
         self.monitored_codes = []
@@ -86,10 +88,14 @@ class Sched:
     def yield_here(self, info=None):
         """called from a controlled thread: give the baton back"""
         t = self.me()
-        if t is None or not self.active:
+        if t is None or not self.active or self.quiet:
             return
         if self.abort:
             raise Abort()
+        if t.skip > 0:
+            t.skip -= 1
+            t.switches += 1
+            return
         t.info = info
         t.switches += 1
         if self.pos_fn is not None:
